@@ -169,11 +169,33 @@ def adder_checks(ck):
                 j = next(i for i in range(len(rows)) if got[i] != want[i])
                 ck.disagree("compiled adder returns a wrong count", dict(case, row=rows[j], lane=j % W),
                             expected=want[j], observed=got[j], signature={"what": "adder"})
+            if gi % 5 == 0 and len(rows) >= 2:
+                # counts already returned stay what they were when the handle is called again with another batch of the same size
+                msg = compiled.alias_check(net, rows, list(reversed(rows)))
+                if msg:
+                    ck.disagree("returned counts change after a later call: " + msg, case, signature={"what": "aliasing"})
+                ck.count("aliasing_checks")
 
 
 def compiled_reject_checks(ck):
     """A compiled model whose LAST layer width is not divisible by k must be refused (and a divisible one accepted)."""
     rng = ck.rng
+    # conv (+pool) -> flatten -> GroupSum without any dense layer: the flattened width decides
+    for shp, layers, k in (((1, 4, 4), [("conv", dict(K=2, depth=1, rf=2))], 4), ((1, 4, 4), [("conv", dict(K=2, depth=1, rf=2))], 9),
+                           ((1, 4, 4), [("conv", dict(K=2, depth=1, rf=2)), ("pool", dict(k=2, s=1))], 3),
+                           ((1, 2, 2, 3), [("conv", dict(K=3, depth=1, rf=2))], 2), ((1, 4, 4), [("conv", dict(K=2, depth=1, rf=2))], 6)):
+        model = nets.make_custom(rng, shp, layers + [("flatten",), ("gs", k)])
+        feat = len(nets.eval_spec(dict(nets.extract(model), k=None), [0] * int(np.prod(shp))))
+        case = {"kind": "compiled-divisibility-conv", "features": feat, "k": k}
+        ck.case(case, kind="compiled_reject")
+        try:
+            compiled.build(model, 8)
+            accepted = True
+        except Exception:
+            accepted = False
+        if accepted != (feat % k == 0):
+            ck.disagree("compiled conv-only model: divisibility of the flattened width by k decides acceptance", dict(case, accepted=accepted),
+                        signature={"what": "compiled-divisible-conv", "accepted": accepted})
     for n_in, n_out, k in ((6, 7, 3), (7, 9, 3), (4, 7, 2), (5, 10, 5), (6, 9, 2), (9, 6, 3)):
         model = nets.make_dense(rng, 4, [n_in, n_out], k=k)
         case = {"kind": "compiled-divisibility", "last_in": n_in, "last_out": n_out, "k": k}
